@@ -81,10 +81,13 @@ def msg(n, d, blocklen=None):
 def lengths(cid, tier):
     n = blen(cid)
     if cid.startswith('stub'):
-        return list(range(0, 4 * n + 2)) if (n <= 32 or tier == 'thorough') else \
+        base = list(range(0, 4 * n + 2)) if (n <= 32 or tier == 'thorough') else \
             sorted({k * n + r for k in range(0, 5) for r in (0, 1, 2, n // 2, n - 2, n - 1)} | set(range(0, 40)))
+        # many blocks: past 255/256/257 blocks for the small block sizes (one-byte counters and length bytes), 9 and 17 otherwise
+        many = (9, 17, 255, 256, 257, 300) if n <= 2 else ((9, 17, 257) if n <= 8 else (9, 17))
+        return sorted(set(base) | {k * n + r for k in many for r in (0, 1, n - 1)})
     out = set(range(0, n + 2))
-    for k in (1, 2, 3):
+    for k in (1, 2, 3, 5, 9):
         out |= {k * n, k * n + 1, k * n + n - 1}
     return sorted(out)
 
